@@ -84,6 +84,11 @@ fn norm_uri(u: &str) -> String {
 }
 
 pub fn check(v: &View, sc: Option<&Scenario>, quiescent: bool) -> ApiOut {
+    check_with_ending(v, sc, quiescent, None)
+}
+
+/// `t_ending`: logical time at which the scenario's ending (C07 fault enumeration) was applied.
+pub fn check_with_ending(v: &View, sc: Option<&Scenario>, quiescent: bool, t_ending: Option<u64>) -> ApiOut {
     let mut viol = Vec::new();
     let mut stats = Stats::default();
     let mut acc: BTreeMap<u32, StreamAcc> = BTreeMap::new();
@@ -318,7 +323,7 @@ pub fn check(v: &View, sc: Option<&Scenario>, quiescent: bool) -> ApiOut {
             }
         }
     }
-    let coop_run = sc.map(|s| s.coop && s.faults.is_empty()).unwrap_or(false) && !fault_fired;
+    let coop_run = sc.map(|s| s.coop && s.faults.is_empty() && s.ending.is_none()).unwrap_or(false) && !fault_fired;
 
     for (idx, s) in &acc {
         if *idx == 0 {
@@ -445,6 +450,43 @@ pub fn check(v: &View, sc: Option<&Scenario>, quiescent: bool) -> ApiOut {
         }
     }
 
+    // ---- C07 (d): a message completely received by the endpoint's transport before the ending is still delivered
+    // (abrupt_shutdown is exempt: its documented contract is that outstanding streams are not handled,
+    // the application that calls it gives up its own unread data)
+    let abrupt = sc.and_then(|s| s.ending).map(|e| matches!(e.kind, crate::apps::spec::EndKind::AbruptShutdown(_))).unwrap_or(false);
+    if let (Some(te), true, false) = (t_ending, quiescent, abrupt) {
+        for (idx, s) in &acc {
+            if *idx == 0 || s.sid == 0 {
+                continue;
+            }
+            let spec = sc.and_then(|sc| sc.streams.iter().find(|x| x.idx == *idx));
+            let spec = match spec {
+                Some(s) => s,
+                None => continue,
+            };
+            // (direction the message travels, its body accumulator, reader plan, head delivered?)
+            for (d, b, plan, head_seen) in [(0usize, &s.req_body, &spec.req_read, !s.req_head_del.is_empty()), (1usize, &s.resp_body, &spec.resp_read, !s.resp_head_del.is_empty())] {
+                // "had received its complete message": h2 itself had processed the END_STREAM (hook H2 snapshot
+                // of the receiving endpoint showed the receive half ended) before the ending
+                let recv_side = if d == 0 { Side::Server } else { Side::Client };
+                let complete_before = v.evs().iter().any(|e| e.t < te && matches!(&e.k, crate::trace::EvK::SnapFact { side, what: "recv_end_stream_processed", v } if *side == recv_side && *v == s.sid as i64));
+                if !complete_before || rst_sids.contains(&s.sid) {
+                    continue;
+                }
+                stats.inc("complete_before_ending");
+                // the reader must have been in a position to read: it got the head and reads to the end
+                // (only the content is demanded, not the kind of terminal indication the reader gets afterwards)
+                if head_seen && plan.mode == crate::apps::spec::ReadMode::All && !b.clean_end && b.delivered != b.submitted {
+                    viol.push(Violation::new(
+                        "C07",
+                        "complete-message-lost-at-connection-end",
+                        format!("stream tag {} sid {} {}: every frame through END_STREAM had been read before the ending (t={}), the application read to the end but saw no clean end (delivered {} of {}, error {:?})", idx, s.sid, if d == 0 { "request" } else { "response" }, te, b.delivered, b.submitted, b.recv_error),
+                    ));
+                }
+            }
+        }
+    }
+
     // ---- outstanding operations at quiescence
     let mut pending = Vec::new();
     if quiescent {
@@ -454,7 +496,7 @@ pub fn check(v: &View, sc: Option<&Scenario>, quiescent: bool) -> ApiOut {
         }
         if !pending.is_empty() {
             let prop = if coop_run { "C06" } else { "C07" };
-            let applicable = coop_run || conn_ended || fault_fired;
+            let applicable = coop_run || conn_ended || fault_fired || t_ending.is_some();
             if applicable {
                 let mut kinds: Vec<String> = open_ops.values().map(|(_, a)| format!("{:?}", a.op)).collect();
                 kinds.sort();
